@@ -206,6 +206,11 @@ func c16Conntrack(c *Ctx) {
 		}
 		n++
 		if nm := fnName(topFunc(w.Fn)); inserters[nm] == "" {
+			// a new unexported same-package function all of whose callers are tabled is a part of them
+			if ok, owner := c.fix6PartOfTabled(funcs, w.Fn, PkgPath(""), func(n string) bool { return inserters[n] != "" }); ok {
+				c.Note("C16.conntrack: %s writes Conns and is only called by %s: counted as part of it", nm, owner)
+				continue
+			}
 			bad++
 			c.Bad("C16.conntrack", "Conns<-"+nm, c.instrPos(w.Instr), w.Kind+" into the conntrack map outside addConn: the flow is allowed from then on without any rule having matched")
 		}
@@ -224,7 +229,12 @@ func c16Conntrack(c *Ctx) {
 		}
 		k++
 		nm := fnName(topFunc(s.Fn))
-		c.Check(nm == "(*nebula.Firewall).Drop", "C16.conntrack", "addConn<-"+nm, c.instrPos(s.Instr), "only Drop tracks flows", "addConn is called outside Drop: a flow is tracked that no rule allowed")
+		isDrop := nm == "(*nebula.Firewall).Drop"
+		if !isDrop && s.Kind == "call" {
+			// a new unexported helper that only Drop calls is a part of Drop (C16.track follows it in place)
+			isDrop, _ = c.fix6PartOfTabled(funcs, s.Fn, PkgPath(""), func(n string) bool { return n == "(*nebula.Firewall).Drop" })
+		}
+		c.Check(isDrop, "C16.conntrack", "addConn<-"+nm, c.instrPos(s.Instr), "only Drop tracks flows", "addConn is called outside Drop: a flow is tracked that no rule allowed")
 	}
 	if k == 0 {
 		c.Unknown("C16.conntrack", "addConn", "no caller found")
@@ -238,8 +248,12 @@ func c16Conntrack(c *Ctx) {
 	if roles == nil {
 		return
 	}
-	// no helper inlining here: purge / evict / logging only multiply the paths
-	paths := c.g1Explore("C16.conntrack", &g1Sym{Stop: []Ref{{"", "FirewallTable", "match"}}, ForkResults: true, Inline: func(*ssa.Function) bool { return false }}, fn, roles...)
+	// no helper inlining here: purge / evict / logging only multiply the paths. The one exception is a
+	// same-package helper that can reach the atom (FirewallTable.match): it is a block of inConns that
+	// was extracted (the old-rules-version revalidation), so it is followed as if written in place.
+	sym := &g1Sym{Stop: []Ref{{"", "FirewallTable", "match"}}, ForkResults: true}
+	sym.Inline = fix6InlineReaching(sym)
+	paths := c.g1Explore("C16.conntrack", sym, fn, roles...)
 	// nothing is inlined here, so every helper is "unfollowed": only one that is handed the packet or the
 	// cache could hide the membership test (TimerWheel.Purge, evict, logging are not)
 	v := c16V{rel: g1MOr(g1MRoot("PKT"), g1MRoot("CACHE"))}
@@ -751,7 +765,11 @@ func c16RuleTable(c *Ctx) {
 	hostSlot := g1MIndex(g1MField(fHosts, FR), certName)
 	supernets := g1MCall([]Ref{{"github.com/gaissmai/bart", "Table", "Supernets"}}, g1MField(fCIDR, FR), c17HostRoute(g1MField(fRem, P)))
 	var rt, rf c16V
-	for _, p := range c.g1Explore("C16.rule-table", &g1Sym{Stop: []Ref{lcMatch}, ForkResults: true}, mat, mroles...) {
+	// the for-all loop over a group list (or the whole loop over the group lists) may live in a
+	// same-package helper: it is followed, loops included, and recognised by its decisions below
+	msym := &g1Sym{Stop: []Ref{lcMatch}, ForkResults: true, MaxPaths: 200000} // a helper activation has its own loop budget: more paths than the in-place form
+	msym.Inline = fix6InlineLoops(msym)
+	for _, p := range c.g1Explore("C16.rule-table", msym, mat, mroles...) {
 		r, ok := p.ResBool(0)
 		if p.Panic || !ok || p.LitIs(g1MEq(FR, g1MNil), true) {
 			continue
